@@ -182,28 +182,55 @@ Proof.
   apply Forall_map. exact Ha.
 Qed.
 
+(* in a well-formed map two entries whose keys are eq (NaN by kind) are one entry *)
+Lemma wfd_keys_distinct m : wfd (VMap m) ->
+  forall e e', In e m -> In e' m -> equal (dn (fst e)) (dn (fst e')) = true -> e = e'.
+Proof.
+  intros W. pose proof W as W0. unfold wfd in W0. rewrite dn_map in W0.
+  pose proof (wf_map_nodup _ W0) as N0. pose proof (wfM_of _ W0) as M0.
+  assert (R0 : forall e, In e m -> equal (dn (fst e)) (dn (fst e)) = true).
+  { intros e He. apply wfd_refl. apply (wfd_map_in m e W He). }
+  intros e e' He He' E.
+  assert (X : dn_e e = dn_e e').
+  { apply (nodupk_In (map dn_e m) N0 M0); [|apply in_map; exact He|apply in_map; exact He'|exact E].
+    intros z Hz. apply in_map_iff in Hz as (a & <- & Ha). apply R0. exact Ha. }
+  clear - X He He' N0 R0. induction m as [|a m' IHm]; [destruct He|].
+  cbn [map nodupk] in N0. apply andb_true_iff in N0 as [N1 N2]. apply negb_true_iff in N1.
+  assert (Q : forall z, In z m' -> dn_e z = dn_e a -> False).
+  { intros z Hz Ez. assert (existsb (fun e'0 => equal (fst (dn_e a)) (fst e'0)) (map dn_e m') = true); [|congruence].
+    apply existsb_exists. exists (dn_e z). split; [apply in_map; exact Hz|]. rewrite Ez. apply R0. left. reflexivity. }
+  destruct He as [<-|He]; destruct He' as [<-|He']; try reflexivity.
+  - exfalso. apply (Q e' He'). symmetry. exact X.
+  - exfalso. apply (Q e He). exact X.
+  - apply IHm; auto. intros z Hz. apply R0. right. exact Hz.
+Qed.
+
 (* ------------------------------------------------------------------ *)
 Section Sem.
+Variable is_print : N -> bool.
 Variable pf : bytes -> option N.
+Variable fmtF fmtE : N -> bytes.
 Variable rk : N -> Z.
 Hypothesis nan_is_nan : exists b', pf C05.sNaN = Some b' /\ C05.is_nan b' = true.   (* contract S2_nan *)
 
-Notation norm := (C04.norm pf rk).
-Definition nrm_e (e : value * value) : value * value := (norm (fst e), norm (snd e)).
+Notation norm := (C04.norm is_print pf fmtF fmtE rk).
+Notation repr := (C04.repr is_print fmtF fmtE rk).
+Definition nrm_e (ind : Z) (e : value * value) : value * value :=
+  (norm (fst e) (ind + 1), norm (snd e) (ind + 2)).
 
-Definition Good (v : value) : Prop := wfd (norm v) /\ equal (dn v) (dn (norm v)) = true.
+Definition Good (v : value) (ind : Z) : Prop := wfd (norm v ind) /\ equal (dn v) (dn (norm v ind)) = true.
 
-Lemma eql_pointwise l : (forall e, In e l -> equal (dn e) (dn (norm e)) = true) ->
-  eql (map dn l) (map dn (map norm l)) = true.
+Lemma eql_pointwise i l : (forall e, In e l -> equal (dn e) (dn (norm e i)) = true) ->
+  eql (map dn l) (map dn (map (fun e => norm e i) l)) = true.
 Proof.
   induction l as [|e l IH]; intros H; [reflexivity|]. cbn [map eql].
   rewrite (H e (or_introl eq_refl)). cbn [andb]. apply IH. intros x Hx. apply H. right. exact Hx.
 Qed.
 
-Theorem norm_good : forall v, okv v = true -> wfd v -> Good v.
+Theorem norm_good : forall v, okv v = true -> wfd v -> forall ind, Good v ind.
 Proof.
-  apply (value_size_ind (fun v => okv v = true -> wfd v -> Good v)).
-  intros v IH Hok W. unfold Good.
+  apply (value_size_ind (fun v => okv v = true -> wfd v -> forall ind, Good v ind)).
+  intros v IH Hok W ind. unfold Good.
   destruct v as [|b|z|z|q|b|s|sub l|m|ty id]; try (split; [exact W|apply (wfd_refl _ W)]).
   - (* float *)
     cbn [C04.norm]. destruct (C05.is_nan b) eqn:NB.
@@ -211,7 +238,7 @@ Proof.
       unfold wfd. cbn [denan]. rewrite NB, N'. split; reflexivity.
     + split; [exact W|apply (wfd_refl _ W)].
   - (* list *)
-    assert (IHe : forall e, In e l -> Good e).
+    assert (IHe : forall e, In e l -> Good e (ind + 1)).
     { intros e He. cbn [okv] in Hok. rewrite forallb_forall in Hok.
       apply IH; [apply (vsize_list_in sub l e He)|apply Hok; exact He|apply (wfd_list_in sub l e W He)]. }
     cbn [C04.norm]. split.
@@ -219,18 +246,19 @@ Proof.
       apply in_map_iff in Hx as (y & <- & Hy). apply in_map_iff in Hy as (e & <- & He). apply IHe. exact He.
     + rewrite !dn_list, equal_list. apply eql_pointwise. intros e He. apply IHe. exact He.
   - (* map *)
-    assert (IHe : forall e, In e m -> Good (fst e) /\ Good (snd e)).
+    assert (IHe : forall e, In e m -> Good (fst e) (ind + 1) /\ Good (snd e) (ind + 2)).
     { intros e He. cbn [okv] in Hok. rewrite forallb_forall in Hok. specialize (Hok e He).
       apply andb_true_iff in Hok as [O1 O2]. destruct (vsize_map_in m e He) as [S1 S2].
       destruct (wfd_map_in m e W He) as [W1 W2]. split; apply IH; assumption. }
     cbn [C04.norm].
-    set (dec' := fun e : value * value => (fst e, (norm (fst e), norm (snd e)))).
-    rewrite (isort_map (@key_lt rk value) (@key_lt rk (value * value)) dec' (fun a b => eq_refl) m).
-    set (sm := isort (@key_lt rk value) m).
+    pose proof (isort_dec rk (fun k : value => repr k (ind + 1))
+                  (fun e : value * value => (norm (fst e) (ind + 1), norm (snd e) (ind + 2))) m) as E2.
+    cbn beta in E2. rewrite E2. clear E2.
+    set (sm := sorted_entries rk (fun k : value => repr k (ind + 1)) m).
     rewrite map_map. cbn [snd].
-    change (map (fun x : value * value => snd (dec' x)) sm) with (map nrm_e sm).
-    assert (Pm : Permutation m sm) by apply isort_perm.
-    assert (Hin : forall e, In e sm -> In e m) by (intros e; apply isort_in).
+    change (map (fun x : value * value => (norm (fst x) (ind + 1), norm (snd x) (ind + 2))) sm) with (map (nrm_e ind) sm).
+    assert (Pm : Permutation m sm) by apply sorted_entries_perm.
+    assert (Hin : forall e, In e sm -> In e m) by (intros e; apply sorted_entries_in).
     (* facts about the original keys *)
     pose proof W as W0. unfold wfd in W0. rewrite dn_map in W0.
     pose proof (wf_map_nodup _ W0) as N0. pose proof (wfM_of _ W0) as M0.
@@ -255,23 +283,23 @@ Proof.
       - apply IHm; auto. intros z Hz. apply R0. right. exact Hz. }
     (* distinct entries keep distinct keys after norm *)
     assert (KN : forall e e', In e sm -> In e' sm ->
-                  equal (dn (norm (fst e))) (dn (norm (fst e'))) = true -> e = e').
+                  equal (dn (norm (fst e) (ind + 1))) (dn (norm (fst e') (ind + 1))) = true -> e = e').
     { intros e e' He He' E. apply Hin in He, He'. apply KD; try assumption.
       destruct (IHe e He) as [[Wa Ea] _]. destruct (IHe e' He') as [[Wb Eb] _].
       destruct (wfd_map_in m e W He) as [W1 _]. destruct (wfd_map_in m e' W He') as [W2 _].
-      apply (equal_trans _ (dn (norm (fst e)))); try assumption.
-      apply (equal_trans _ (dn (norm (fst e')))); try assumption.
+      apply (equal_trans _ (dn (norm (fst e) (ind + 1)))); try assumption.
+      apply (equal_trans _ (dn (norm (fst e') (ind + 1)))); try assumption.
       apply equal_sym; assumption. }
     (* no replacement when the entries are inserted again *)
-    assert (RB : rebuild (map nrm_e sm) = map nrm_e sm).
-    { apply rebuild_id. apply (fop_map nrm_e (fun e e' => hm_match (fst e') (fst e) = false)).
-      apply (fop_of_inj (fun a b => hm_match (fst (nrm_e a)) (fst (nrm_e b))) sm ND).
+    assert (RB : rebuild (map (nrm_e ind) sm) = map (nrm_e ind) sm).
+    { apply rebuild_id. apply (fop_map (nrm_e ind) (fun e e' => hm_match (fst e') (fst e) = false)).
+      apply (fop_of_inj (fun a b => hm_match (fst (nrm_e ind a)) (fst (nrm_e ind b))) sm ND).
       intros a b Ha Hb E. apply KN; try assumption. unfold hm_match in E. apply andb_true_iff in E as [_ E].
       cbn [nrm_e fst] in E. apply equal_dn; [apply (IHe a (Hin a Ha))|apply (IHe b (Hin b Hb))|exact E]. }
     rewrite RB.
-    assert (NY : nodupk (map dn_e (map nrm_e sm)) = true).
-    { rewrite map_map. apply (nodupk_of_inj (fun e => dn_e (nrm_e e)) sm ND). intros a b Ha Hb E. apply KN; assumption. }
-    assert (WY : wfb (VMap (map dn_e (map nrm_e sm))) = true).
+    assert (NY : nodupk (map dn_e (map (nrm_e ind) sm)) = true).
+    { rewrite map_map. apply (nodupk_of_inj (fun e => dn_e (nrm_e ind e)) sm ND). intros a b Ha Hb E. apply KN; assumption. }
+    assert (WY : wfb (VMap (map dn_e (map (nrm_e ind) sm))) = true).
     { rewrite wfb_map, NY, andb_true_r. apply forallb_forall. intros x Hx.
       apply in_map_iff in Hx as (y & <- & Hy). apply in_map_iff in Hy as (e & <- & He).
       destruct (IHe e (Hin e He)) as [[Wa _] [Wb _]]. unfold wfd in Wa, Wb. cbn [dn_e nrm_e fst snd].
@@ -279,10 +307,10 @@ Proof.
     split.
     + unfold wfd. rewrite dn_map. exact WY.
     + rewrite !dn_map, equal_map. apply andb_true_iff. split.
-      * rewrite !map_length. unfold sm. rewrite isort_length. apply Nat.eqb_refl.
+      * rewrite !map_length. unfold sm. rewrite sorted_entries_length. apply Nat.eqb_refl.
       * apply msub_forall. intros e0 He0. apply in_map_iff in He0 as (e & <- & He).
         destruct (IHe e He) as [[_ Ea] [_ Eb]]. destruct (wfd_map_in m e W He) as [W1 _].
-        apply (mlook_in wf equal_sym equal_trans _ _ _ (dn_e (nrm_e e))).
+        apply (mlook_in wf equal_sym equal_trans _ _ _ (dn_e (nrm_e ind e))).
         -- apply wfM_of. exact WY.
         -- exact W1.
         -- exact NY.
@@ -294,18 +322,18 @@ Qed.
 (* numbers keep their representation; a NaN stays a NaN *)
 Theorem norm_keeps_number v : okv v = true ->
   match v with
-  | VInt _ | VBig _ | VRat _ => norm v = v
-  | VFloat b => if C05.is_nan b then exists b', norm v = VFloat b' /\ C05.is_nan b' = true
-                else norm v = v
-  | _ => num_type (norm v) = None
+  | VInt _ | VBig _ | VRat _ => forall ind, norm v ind = v
+  | VFloat b => forall ind, if C05.is_nan b then exists b', norm v ind = VFloat b' /\ C05.is_nan b' = true
+                else norm v ind = v
+  | _ => forall ind, num_type (norm v ind) = None
   end.
 Proof.
-  intros _. destruct v; try reflexivity.
+  intros _. destruct v; intros ind; try reflexivity.
   cbn [C04.norm]. destruct (C05.is_nan bits) eqn:NB; [|reflexivity].
   destruct nan_is_nan as (b' & EP & N'). rewrite EP. exists b'. split; [reflexivity|exact N'].
 Qed.
 
-Lemma norm_num_type v : num_type (norm v) = num_type v.
+Lemma norm_num_type v ind : num_type (norm v ind) = num_type v.
 Proof.
   destruct v; try reflexivity. cbn [C04.norm].
   destruct (C05.is_nan bits); [destruct (pf C05.sNaN)|]; reflexivity.
